@@ -86,8 +86,10 @@ impl ApproximateEqToInt for f64 {
 }
 
 macro_rules! div {
+    // only a divisor that IS zero is a division by zero
+    // (1 / .000001 is 1000000, not an error)
     ($nom:expr, $div:expr) => {
-        if $div.approximate_eq(0) {
+        if $div as f64 == 0.0 {
             Err($crate::VariantError::DivisionByZero)
         } else {
             Ok(($nom / $div).fit_to_type())
@@ -95,7 +97,7 @@ macro_rules! div {
     };
 
     ($nom:expr, $div:expr, $cast:tt) => {
-        if $div.approximate_eq(0) {
+        if $div as f64 == 0.0 {
             Err($crate::VariantError::DivisionByZero)
         } else {
             Ok(($nom as $cast / $div as $cast).fit_to_type())
